@@ -65,4 +65,7 @@ def check(ctx, run):
     _bf = lambda p_: p_ in ('functions::get_by_keypath',)
     boundaries.check(ctx, run, 'R11.4/bounds', [p_ for p_ in sorted(boundaries.load_baseline() or {}) if _bf(p_)], 'the text branch and the JSONB branch of an accessor reject positions')
     accessors.name_variants_alike(ctx, run, 'R11.4/names', lambda p_: p_.startswith('functions::'))
+    from rules import editing as _ed
+    _ed.r06_13(ctx, run, rule='R11.5/R06.13')
+    _ed.r11_6(ctx, run, rule='R11.6')
     return report.finish(run, level='other', explanation=EXPLANATION, assumptions=["is_jsonb is the library's own representation sniff; text beginning with a space is excluded by the property"])
